@@ -33,6 +33,7 @@ type splitStep struct {
 	Vals    []int          `json:"vals"`
 	Exp     []int          `json:"exp"`
 	After   map[string]int `json:"after"`
+	Failing map[string]int `json:"failing"` // 1: the node answers an error to every per-key command of this key
 }
 
 type splitBad struct {
@@ -127,6 +128,28 @@ func (e *splitEnv) concreteKeys(owner map[string]int) map[string]string {
 	return out
 }
 
+var childErrors = []string{
+	"OOM command not allowed when used memory > 'maxmemory'.",
+	"READONLY You can't write against a read only replica.",
+	"MISCONF Redis is configured to save RDB snapshots, but it is currently not able to persist on disk.",
+	"ERR value is not an integer or out of range",
+}
+
+// failKey makes the owner of key answer an error to every per-key command that names it.
+func (e *splitEnv) failKey(key string, n int) {
+	text := childErrors[n%len(childErrors)]
+	e.cl.Nodes[e.cl.Owner(simredis.Slot([]byte(key)))].Script(&simredis.Scripted{
+		Match: func(cmd string, args [][]byte) bool {
+			switch cmd {
+			case "set", "get", "del", "unlink", "exists", "touch":
+				return len(args) > 1 && string(args[1]) == key
+			}
+			return false
+		},
+		Raw: resp.Bytes(resp.Err(text)),
+	})
+}
+
 func splitShape(ks []string) string {
 	seen := map[string]bool{}
 	for _, k := range ks {
@@ -158,6 +181,15 @@ func (e *splitEnv) one(res *splitResult, st splitStep, name string, keys map[str
 		}
 	}
 	shape := splitShape(st.Ks)
+	failing := false
+	for _, mk := range st.Ks {
+		if st.Failing[mk] == 1 {
+			failing = true
+		}
+	}
+	if failing {
+		shape = "child-error"
+	}
 	res.Strata = append(res.Strata, st.Op+"/"+shape+"/"+strings.ToLower(name))
 	note := func(got, want, why string) {
 		if len(res.Bad) < 12 {
@@ -167,11 +199,58 @@ func (e *splitEnv) one(res *splitResult, st splitStep, name string, keys map[str
 	for _, n := range e.cl.Nodes {
 		n.ClearLog()
 	}
-	want := e.ref.Exec(args)
+	var want resp.Value
+	if failing {
+		// the single server on which the per-key commands of the failing keys fail: the others are executed
+		for i, mk := range st.Ks {
+			if st.Failing[mk] == 1 {
+				continue
+			}
+			switch st.Op {
+			case "mdel":
+				e.ref.Exec([][]byte{[]byte("DEL"), []byte(keys[mk])})
+			case "mwrite":
+				e.ref.Exec([][]byte{[]byte("SET"), []byte(keys[mk]), e.valueBytes(vals, st.Vals[i])})
+			}
+		}
+		want = resp.Err("<the error of the failing key>")
+	} else {
+		want = e.ref.Exec(args)
+	}
 	v, err := e.c[conn%2].DoB(20*time.Second, args...)
 	res.Cmds++
 	if err != nil {
 		note(err.Error(), want.String(), "no reply")
+		return
+	}
+	if failing {
+		// the combination the specification allows (ClusterSplit.tla Allowed): an error reply whenever a per-key command
+		// failed; MGET may carry the error in the element's position instead
+		redir := v.IsErr() && (bytes.HasPrefix(bytes.ToUpper(v.Str), []byte("MOVED")) || bytes.HasPrefix(bytes.ToUpper(v.Str), []byte("ASK")))
+		switch {
+		case redir:
+			note(v.String(), want.String(), "redirection error")
+		case v.IsErr():
+		case st.Op == "mwrite":
+			note(v.String(), want.String(), "child error swallowed: a per-key SET was answered with an error, the key was not written, the client is told OK")
+		case st.Op == "mread":
+			ok := v.Kind == '*' && len(v.Arr) == len(st.Exp)
+			for i := 0; ok && i < len(st.Exp); i++ {
+				switch {
+				case st.Exp[i] == 2000:
+					ok = v.Arr[i].IsErr()
+				case st.Exp[i] == 0:
+					ok = v.Arr[i].Null
+				default:
+					ok = !v.Arr[i].Null && bytes.Equal(v.Arr[i].Str, vals[st.Exp[i]])
+				}
+			}
+			if !ok {
+				note(v.String(), fmt.Sprintf("%v (2000 = error)", st.Exp), "reply differs from the specification (error in the position of the failing key, or an error for the whole command)")
+			}
+		default:
+			note(v.String(), want.String(), "a per-key command was answered with an error, the reply is not an error")
+		}
 		return
 	}
 	if !resp.Equal(v, want) {
@@ -345,6 +424,11 @@ func split(args []string) error {
 				}
 				stc.After[mk] = idv
 			}
+			for mk, f := range st.Failing {
+				if f == 1 {
+					env.failKey(keys[mk], id+ci)
+				}
+			}
 			switch st.Op {
 			case "mcount": // does not change anything: every concrete command of the class on the same state
 				for ni, name := range names {
@@ -354,6 +438,9 @@ func split(args []string) error {
 				}
 			default:
 				env.one(&res, stc, names[(id+ci)%len(names)], keys, vals, ci)
+			}
+			for _, n := range env.cl.Nodes {
+				n.ClearScripts()
 			}
 			env.state(&res, stc, keys, vals)
 		}
